@@ -423,9 +423,56 @@ def translate_fmt_shape(pkg):
     return out
 
 
+
+def translate_names(pkg):
+    """Names of the temporary chunk files (group "Names", C04, lenient): the template the conversion writes them with,
+    the pattern the clean-up looks for, and the slice every learner parses the number back from before sorting."""
+    import re
+    with open(os.path.join(pkg, "preprocess.py"), encoding="utf-8") as f:
+        tree = ast.parse(f.read())
+    fn = find_function(tree, "create_binary_event_files")
+    tmpl = [x.left.value for x in ast.walk(fn) if isinstance(x, ast.BinOp) and isinstance(x.op, ast.Mod)
+            and isinstance(x.left, ast.Constant) and isinstance(x.left.value, str) and x.left.value.endswith(".dat")]
+    if len(tmpl) != 1:
+        raise Unsupported("create_binary_event_files: not exactly one '<prefix>%i<suffix>.dat' template")
+    m = re.fullmatch(r"([^%]*)%[id]([^%]*)", tmpl[0])
+    if not m:
+        raise Unsupported("chunk name template %r" % tmpl[0])
+    pats = [x.left.value for x in ast.walk(fn) if isinstance(x, ast.Compare) and len(x.ops) == 1
+            and isinstance(x.ops[0], ast.In) and isinstance(x.left, ast.Constant) and isinstance(x.left.value, str)]
+    if len(pats) != 1:
+        raise Unsupported("create_binary_event_files: not exactly one `'<pattern>' in file_name` clean-up test")
+    lowers, uppers = [], []
+    conversions = 0
+    for fname in ("ndl.py", "wh.py"):
+        with open(os.path.join(pkg, fname), encoding="utf-8") as f:
+            t = ast.parse(f.read())
+        for x in ast.walk(t):
+            if isinstance(x, ast.Call) and ((isinstance(x.func, ast.Attribute) and x.func.attr == "create_binary_event_files")
+                                            or (isinstance(x.func, ast.Name) and x.func.id == "create_binary_event_files")):
+                conversions += 1
+            if isinstance(x, ast.Call) and isinstance(x.func, ast.Attribute) and x.func.attr in ("sort",) \
+                    and isinstance(x.func.value, ast.Name) and x.func.value.id == "binary_files":
+                want = ast.parse("binary_files.sort(key=lambda filename: int(os.path.basename(filename)[0:-1]))").body[0].value
+                def shape(d):
+                    return re.sub(r"Constant\(value=[0-9]+\)", "Constant()", ast.dump(d))
+                if shape(x) != shape(want):
+                    raise Unsupported("%s: binary_files.sort(...) is not sort(key=lambda filename: int(os.path.basename(filename)[A:-B]))" % fname)
+                sl = x.keywords[0].value.body.args[0].slice
+                lowers.append(sl.lower.value)
+                uppers.append(sl.upper.operand.value)
+            elif isinstance(x, ast.Call) and isinstance(x.func, ast.Name) and x.func.id == "sorted" and x.args \
+                    and isinstance(x.args[0], ast.Name) and x.args[0].id == "binary_files":
+                raise Unsupported("%s: sorted(binary_files, ...)" % fname)
+    return {"names_prefix": [ord(c) for c in m.group(1)], "names_suffix": [ord(c) for c in m.group(2)],
+            "names_cleanup": [ord(c) for c in pats[0]], "names_sort_lower": lowers, "names_sort_upper_neg": uppers,
+            "names_conversions": conversions}
+
+
 def emit_fmt(pkg, lines, report):
     for name, fun, what in (("fmt_consts_src", translate_fmt, "binary format constants"),
-                            ("fmt_shape_src", translate_fmt_shape, "structure of the chunk readers")):
+                            ("fmt_shape_src", translate_fmt_shape, "structure of the chunk readers"),
+                            ("chunk_names_src", translate_names, "names of the temporary chunk files")):
         try:
             c = fun(pkg)
         except (Unsupported, SyntaxError, OSError, KeyError, IndexError, AttributeError) as ex:
